@@ -13,6 +13,8 @@ Transformations
                  irrelevant)
   flip-if        ``if not c: A else: B`` -> ``if c: B else: A`` and ``if a != b`` / ``is not`` likewise (non-elif only)
   return-temp    ``return E`` -> ``_ret = E; return _ret``
+  keyword-last   ``f(a, b)`` -> ``f(a, y=b)`` when every definition named ``f`` in the repository calls its parameter at that
+                 position ``y`` (undecorated, no ``*args``)
   insert-noop    a call without effect (``(lambda: None)()``, standing for a log line) at the start of every function
                  body and loop body
 """
@@ -231,7 +233,100 @@ class _InsertNoop(ast.NodeTransformer):
     visit_While = visit_For
 
 
+# ---- keyword-last: f(a, b) -> f(a, y=b) where every definition `f` may refer to names its 2nd parameter `y` ---------------
+
+_SAFE_DECOS = {"staticmethod", "classmethod"}
+
+
+def _signature_index(repo=None):
+    """{callable simple name: set of parameter-name tuples (without self/cls)} over src/scenic; a name maps to None when
+    some definition of it cannot be called with keywords safely (decorated, *args, positional-only)."""
+    repo = repo or REPO
+    idx = {}
+
+    def add(name, params):
+        if name in idx and idx[name] is None:
+            return
+        if params is None:
+            idx[name] = None
+        else:
+            idx.setdefault(name, set()).add(params)
+
+    for rel in python_files(repo):
+        try:
+            tree = ast.parse(open(os.path.join(repo, rel), encoding="utf-8").read())
+        except SyntaxError:
+            continue
+        for cls in [n for n in ast.walk(tree) if isinstance(n, ast.ClassDef)]:
+            init = [f for f in cls.body if isinstance(f, ast.FunctionDef) and f.name == "__init__"]
+            # a class without its own __init__ inherits one we do not resolve here: unsafe
+            add(cls.name, _params(init[0], drop_first=True) if init and not cls.decorator_list else None)
+        for fn in [n for n in ast.walk(tree) if isinstance(n, (ast.FunctionDef, ast.AsyncFunctionDef))]:
+            if fn.name.startswith("__"):
+                continue
+            is_method = any(isinstance(p, ast.ClassDef) and fn in p.body for p in ast.walk(tree))
+            decos = {ast.unparse(d) for d in fn.decorator_list}
+            if decos - _SAFE_DECOS:
+                add(fn.name, None)
+                continue
+            add(fn.name, _params(fn, drop_first=is_method and "staticmethod" not in decos))
+    return idx
+
+
+def _params(fn, drop_first):
+    a = fn.args
+    if a.vararg or a.posonlyargs:
+        return None
+    names = [x.arg for x in a.args]
+    if drop_first:
+        names = names[1:]
+    return tuple(names)
+
+
+_SIG_CACHE = {}
+
+
+def _keyword_last(tree, repo=None):
+    key = repo or REPO
+    if key not in _SIG_CACHE:
+        _SIG_CACHE[key] = _signature_index(key)
+    idx = _SIG_CACHE[key]
+
+    class T(ast.NodeTransformer):
+        def visit_Call(self, node):
+            self.generic_visit(node)
+            f = node.func
+            # only callees that certainly are repository definitions: plain names that are not builtins, and methods
+            # called on self / cls
+            if isinstance(f, ast.Name) and f.id not in _BUILTINS:
+                name = f.id
+            elif isinstance(f, ast.Attribute) and isinstance(f.value, ast.Name) and f.value.id in ("self", "cls"):
+                name = f.attr
+            else:
+                return node
+            if idx.get(name) is None or name not in idx:
+                return node
+            if isinstance(f, ast.Attribute) and isinstance(f.value, ast.Call) and ast.unparse(f.value.func) == "super":
+                return node
+            if not node.args or any(isinstance(a, ast.Starred) for a in node.args) or any(k.arg is None for k in node.keywords):
+                return node
+            i = len(node.args) - 1
+            cands = idx[name]
+            pn = {c[i] if len(c) > i else None for c in cands}
+            if len(pn) != 1 or None in pn:
+                return node
+            p_ = pn.pop()
+            if any(k.arg == p_ for k in node.keywords):
+                return node
+            node.keywords = [ast.keyword(arg=p_, value=node.args[-1])] + node.keywords
+            node.args = node.args[:-1]
+            return node
+
+    return T().visit(tree)
+
+
 TRANSFORMS = {
+    "keyword-last": _keyword_last,
     "insert-noop": lambda tree: _InsertNoop().visit(tree),
     "return-temp": _return_temp,
     "unparse": lambda tree: tree,
